@@ -855,6 +855,8 @@ pub fn duration_to_formattable(
 
 const TWO_POWER_FIFTY_THREE: i128 = 9_007_199_254_740_992;
 const TWO_POWER_THIRTY_TWO: f64 = 4_294_967_296.0;
+/// 2^53 seconds in nanoseconds
+const MAX_DURATION_NANOSECONDS: i128 = TWO_POWER_FIFTY_THREE * 1_000_000_000;
 
 // NOTE: Can FiniteF64 optimize the duration_validation
 /// Utility function to check whether the `Duration` fields are valid.
@@ -920,19 +922,28 @@ pub(crate) fn is_valid_duration(
     // microseconds, or nanoseconds is an unsafe integer. This multiplication can be implemented
     // in C++ with an implementation of core::remquo() with sufficient bits in the quotient.
     // String manipulation will also give an exact result, since the multiplication is by a power of 10.
-    // Seconds part
-    let normalized_seconds = (days.0 as i128 * 86_400)
-        + (hours.0 as i128) * 3600
-        + minutes.0 as i128 * 60
-        + seconds.0 as i128;
-    // Subseconds part
-    let normalized_subseconds_parts = (milliseconds.0 as i128 / 1_000)
-        + (microseconds.0 as i128 / 1_000_000)
-        + (nanoseconds.0 as i128 / 1_000_000_000);
-
-    let normalized_seconds = normalized_seconds + normalized_subseconds_parts;
+    // NOTE: The sum is computed exactly in nanoseconds. A single field at or beyond the
+    // limit already makes the sum invalid (all fields share one sign); rejecting those
+    // first keeps the integer arithmetic below inside the range of an `i128`.
+    for v in [days, hours, minutes, seconds] {
+        if v.abs() >= TWO_POWER_FIFTY_THREE as f64 {
+            return false;
+        }
+    }
+    for v in [milliseconds, microseconds, nanoseconds] {
+        if v.abs() >= MAX_DURATION_NANOSECONDS as f64 {
+            return false;
+        }
+    }
+    let normalized_nanoseconds = (days.0 as i128 * 86_400_000_000_000)
+        + (hours.0 as i128 * 3_600_000_000_000)
+        + (minutes.0 as i128 * 60_000_000_000)
+        + (seconds.0 as i128 * 1_000_000_000)
+        + (milliseconds.0 as i128 * 1_000_000)
+        + (microseconds.0 as i128 * 1_000)
+        + nanoseconds.0 as i128;
     // 8. If abs(normalizedSeconds) ≥ 2**53, return false.
-    if normalized_seconds.abs() >= TWO_POWER_FIFTY_THREE {
+    if normalized_nanoseconds.abs() >= MAX_DURATION_NANOSECONDS {
         return false;
     }
 
